@@ -56,72 +56,41 @@ impl NdarrayValue {
             (NdarrayValue::U64(arr), Value::ScalarU64(v)) => {
                 arr[IxDyn(indices)] = v;
             }
-            (NdarrayValue::F64(arr), Value::F64(v)) => {
-                // For vector values, we need to handle the extra dimensions
-                if indices.len() == 2 {
-                    // Simple case: just set the slice
-                    let mut view = arr.slice_mut(ndarray::s![indices[0], indices[1], ..]);
-                    for (i, val) in v.iter().enumerate() {
-                        view[i] = *val;
-                    }
-                } else {
-                    return Err(anyhow::anyhow!(
-                        "Vector assignment with complex indices not implemented"
-                    ));
-                }
+            (NdarrayValue::String(arr), Value::ScalarString(v)) => {
+                arr[IxDyn(indices)] = v;
             }
-            (NdarrayValue::F32(arr), Value::F32(v)) => {
-                if indices.len() == 2 {
-                    let mut view = arr.slice_mut(ndarray::s![indices[0], indices[1], ..]);
-                    for (i, val) in v.iter().enumerate() {
-                        view[i] = *val;
-                    }
-                } else {
-                    return Err(anyhow::anyhow!(
-                        "Vector assignment with complex indices not implemented"
-                    ));
-                }
-            }
-            (NdarrayValue::Bool(arr), Value::Bool(v)) => {
-                if indices.len() == 2 {
-                    let mut view = arr.slice_mut(ndarray::s![indices[0], indices[1], ..]);
-                    for (i, val) in v.iter().enumerate() {
-                        view[i] = *val;
-                    }
-                } else {
-                    return Err(anyhow::anyhow!(
-                        "Vector assignment with complex indices not implemented"
-                    ));
-                }
-            }
-            (NdarrayValue::I64(arr), Value::I64(v)) => {
-                if indices.len() == 2 {
-                    let mut view = arr.slice_mut(ndarray::s![indices[0], indices[1], ..]);
-                    for (i, val) in v.iter().enumerate() {
-                        view[i] = *val;
-                    }
-                } else {
-                    return Err(anyhow::anyhow!(
-                        "Vector assignment with complex indices not implemented"
-                    ));
-                }
-            }
-            (NdarrayValue::U64(arr), Value::U64(v)) => {
-                if indices.len() == 2 {
-                    let mut view = arr.slice_mut(ndarray::s![indices[0], indices[1], ..]);
-                    for (i, val) in v.iter().enumerate() {
-                        view[i] = *val;
-                    }
-                } else {
-                    return Err(anyhow::anyhow!(
-                        "Vector assignment with complex indices not implemented"
-                    ));
-                }
-            }
+            (NdarrayValue::F64(arr), Value::F64(v)) => assign_row(arr, indices, &v)?,
+            (NdarrayValue::F32(arr), Value::F32(v)) => assign_row(arr, indices, &v)?,
+            (NdarrayValue::Bool(arr), Value::Bool(v)) => assign_row(arr, indices, &v)?,
+            (NdarrayValue::I64(arr), Value::I64(v)) => assign_row(arr, indices, &v)?,
+            (NdarrayValue::U64(arr), Value::U64(v)) => assign_row(arr, indices, &v)?,
+            (NdarrayValue::String(arr), Value::Strings(v)) => assign_row(arr, indices, &v)?,
             _ => return Err(anyhow::anyhow!("Mismatched item type")),
         }
         Ok(())
     }
+}
+
+/// Write the values of one draw (any number of extra dimensions) at `[chain, draw, ..]`.
+fn assign_row<T: Clone>(arr: &mut ArrayD<T>, indices: &[usize], values: &[T]) -> Result<()> {
+    if indices.len() != 2 {
+        return Err(anyhow::anyhow!(
+            "Vector assignment with complex indices not implemented"
+        ));
+    }
+    let mut chain = arr.index_axis_mut(ndarray::Axis(0), indices[0]);
+    let mut row = chain.index_axis_mut(ndarray::Axis(0), indices[1]);
+    if row.len() != values.len() {
+        return Err(anyhow::anyhow!(
+            "Expected {} values but got {}",
+            row.len(),
+            values.len()
+        ));
+    }
+    row.iter_mut()
+        .zip(values.iter())
+        .for_each(|(dst, val)| *dst = val.clone());
+    Ok(())
 }
 
 /// Final result containing the collected samples as ndarrays
@@ -250,9 +219,9 @@ impl StorageConfig for NdarrayConfig {
         }
 
         for ((name, extra_dims), (name2, item_type)) in settings
-            .stat_dims_all(math)
+            .data_dims_all(math)
             .into_iter()
-            .zip(settings.stat_types(math).into_iter())
+            .zip(settings.data_types(math).into_iter())
         {
             assert!(name == name2);
             if ["draw", "chain"].contains(&name.as_str()) {
